@@ -101,6 +101,41 @@ Theorem C07_synth_declared_bases_refuted :
 Proof. exact synth_registry_refuted. Qed.
 Print Assumptions C07_synth_declared_bases_refuted.
 
+(* walker dispatch (NodeWalker._find_walker + the per-class _walker_cache + __init_subclass__): in every history of
+   class declarations and lookups, started from nothing, each lookup returns the uncached resolution of its
+   (walker class, node class name) - nothing that was declared or walked before matters - provided the resolution
+   does not depend on which class of that name is looked up (the cache is keyed by the class name).
+   [has w] = the callable attributes of walker class w (fixed once the class exists), [snake] = pythonize_name. *)
+Theorem C07_dispatch_cache_transparent :
+  forall fuel (snake : str -> str) (has : N -> str -> bool) (spec : N -> str -> option str) steps,
+    (forall w g c, In (w, g, c) (looks steps) -> resolve fuel g snake (has w) c = spec w c) ->
+    run_walkers fuel snake has [] steps = map (fun x => spec (fst (fst x)) (snd x)) (looks steps).
+Proof. exact dispatch_cache_transparent. Qed.
+Print Assumptions C07_dispatch_cache_transparent.
+
+(* what the search returns is a method of the walker class named after the node's class or one of its ancestors;
+   along single inheritance (generated model classes) it is the method of the NEAREST class that has one.
+   With multiple inheritance the order is the code's own (see below). *)
+Theorem C07_dispatch_sound_nearest_linear :
+  (forall fuel g snake has c m,
+     search fuel g snake has [c] = Some m -> m <> [] ->
+     has m = true /\ exists d, ancestor g c d /\ In m (walker_names snake d))
+  /\ (forall g snake has chain fuel m,
+        linear_to g chain -> nearest snake has chain = Some m -> length chain <= fuel ->
+        search fuel g snake has [hd [] chain] = Some m).
+Proof. exact (conj dispatch_sound search_linear). Qed.
+Print Assumptions C07_dispatch_sound_nearest_linear.
+
+(* "nearest ancestor first" does not extend to multiple inheritance: synthesized classes of a chain P::Q have two
+   bases (P(Q, SynthNode)) and the search (a stack walk the code calls breadth first) reaches BaseNode through
+   SynthNode before Node, so walk_BaseNode wins over walk_Node (replayed on the real code by the harness) *)
+Theorem C07_dispatch_multiple_inheritance_order :
+  exists g has c near far,
+    ancestor g c near /\ In far (bases_of g near) /\ has (walk_pfx ++ near) = true
+    /\ search 64 g snake_none has [c] = Some (walk_pfx ++ far) /\ near <> far.
+Proof. exact dispatch_nearest_refuted. Qed.
+Print Assumptions C07_dispatch_multiple_inheritance_order.
+
 (* non-vacuity: a tree with a node inside a list inside a dict, a _private attribute, a None and a string;
    the hypotheses hold for it (with the insertion-order set oracle) and the walkers give the expected orders *)
 Definition ex_leaf (i : N) : value := VNode i [73]%N [] (VStr [49]%N) [].
